@@ -58,7 +58,7 @@ func VerifC12Modes() {
 	}
 	for _, r := range []result{pr, df} {
 		for _, fx := range r.effects {
-			nd.Assert(fx.kind != "write", "a dry-run mode (--diff / --print-only) wrote a file")
+			nd.Assert(fx.kind != "write" && fx.kind != "fsmut", "a dry-run mode (--diff / --print-only) wrote a file")
 		}
 	}
 	for i := 0; i < nfiles; i++ {
